@@ -13,6 +13,7 @@ import (
 	"github.com/netsampler/goflow2/v2/metrics"
 	"github.com/netsampler/goflow2/v2/producer"
 	protoproducer "github.com/netsampler/goflow2/v2/producer/proto"
+	rawproducer "github.com/netsampler/goflow2/v2/producer/raw"
 	"github.com/netsampler/goflow2/v2/utils/debug"
 	"github.com/netsampler/goflow2/v2/utils"
 )
@@ -158,6 +159,82 @@ func init() {
 		}
 		t.S("msgs")
 		t.N(uint64(len(rs.data)))
+		t.S("diff")
+		t.N(uint64(diff))
+		return t.String()
+	}
+	// parraw #workers <cfg> #nprologue hist : the same workload through the RAW producer (cmd/goflow2 -produce raw: the
+	// decoded packet itself is the message) and the JSON format, shared by #workers goroutines; the multiset of payloads
+	// must equal the one of a sequential run on a fresh pipe
+	handlers["parraw"] = func(a []string) string {
+		nw := int(unnum(a[0]))
+		npro := int(unnum(a[2]))
+		mk := func() (decoder, *syncRec) {
+			fj, _ := format.FindFormat("json")
+			rec := &syncRec{}
+			p := utils.NewFlowPipe(&utils.PipeConfig{Format: fj, Transport: rec, Producer: &rawproducer.RawProducer{},
+				NetFlowTemplater: metrics.NewDefaultPromTemplateSystem})
+			return decoder{metrics.PromDecoderWrapper(debug.PanicDecoderWrapper(p.DecodeFlow), "flow")}, rec
+		}
+		var msgs []*utils.Message
+		for i := 3; i+3 < len(a); i += 4 {
+			msgs = append(msgs, &utils.Message{
+				Src:      netip.AddrPortFrom(addrOf(unhex(a[i])), uint16(unnum(a[i+1]))),
+				Dst:      netip.AddrPortFrom(netip.MustParseAddr("192.0.2.1"), 2055),
+				Payload:  unhex(a[i+3]),
+				Received: time.Unix(0, int64(1000000+len(msgs))).UTC(),
+			})
+		}
+		if npro > len(msgs) {
+			npro = len(msgs)
+		}
+		clone := func(m *utils.Message) *utils.Message {
+			c := *m
+			c.Payload = append([]byte(nil), m.Payload...)
+			return &c
+		}
+		ps, rs := mk()
+		for _, m := range msgs {
+			_ = ps.DecodeFlow(clone(m))
+		}
+		pc, rc := mk()
+		for _, m := range msgs[:npro] {
+			_ = pc.DecodeFlow(clone(m))
+		}
+		work := make(chan *utils.Message, len(msgs))
+		for _, m := range msgs[npro:] {
+			work <- clone(m)
+		}
+		close(work)
+		var wg sync.WaitGroup
+		for w := 0; w < nw; w++ {
+			wg.Add(1)
+			go func() {
+				defer wg.Done()
+				for m := range work {
+					_ = pc.DecodeFlow(m)
+				}
+			}()
+		}
+		wg.Wait()
+		a1, a2 := []string{}, []string{}
+		for _, d := range rs.data {
+			a1 = append(a1, string(d))
+		}
+		for _, d := range rc.data {
+			a2 = append(a2, string(d))
+		}
+		sort.Strings(a1)
+		sort.Strings(a2)
+		diff := 0
+		for i := 0; i < len(a1) || i < len(a2); i++ {
+			if i >= len(a1) || i >= len(a2) || a1[i] != a2[i] {
+				diff++
+			}
+		}
+		var t toks
+		t.S("units")
+		t.N(uint64(len(a1)))
 		t.S("diff")
 		t.N(uint64(diff))
 		return t.String()
